@@ -8,8 +8,8 @@ from . import core
 from .containers import RealContainers
 
 PROP = "C19"
-LEAN_TARGETS = ["Asynkit.Props.C19", "Asynkit.Lemmas.GenEq"]
-PROPS_FILES = ["Asynkit/Props/C19.lean", "Asynkit/Lemmas/GenEq.lean"]
+LEAN_TARGETS = ["Asynkit.Props.C19", "Asynkit.Lemmas.GenEq", "Asynkit.Lemmas.GenEqPosPQ"]
+PROPS_FILES = ["Asynkit/Props/C19.lean", "Asynkit/Lemmas/GenEq.lean", "Asynkit/Lemmas/GenEqPosPQ.lean"]
 DRIVERS = ["PQ"]
 TRUSTED = [
     "Lean 4.33 kernel; axioms ⊆ {propext, Classical.choice, Quot.sound} (audited per theorem each run)",
@@ -18,6 +18,10 @@ TRUSTED = [
     "correspondence (counters, boosts and pop order after every operation)",
     "translator/py2lean.py regenerates update_counters / compute_priority_boost / PriorityValue.__lt__ from the "
     "source; Lemmas/GenEq.lean proves them equal to the model's definitions",
+    "translator/pospq2lean.py re-translates the whole PosPriorityQueue class (do_maintenance and boost_stragglers "
+    "loops included) on each run; Lemmas/GenEqPosPQ.lean proves each generated method equal to Model/PosPQ "
+    "(trusted: the statement-level translator, the self._pq.<m> -> PQ.<m> binding, by-value PriorityValue objects, "
+    "the random draw named by the entry's sequence number)",
     "priorities are exact rationals in the model, floats in the code: compared with a relative tolerance of 1e-9 "
     "(inputs are dyadic, so most cases are exact); pop orders are compared only when no two regular priorities "
     "of the model lie within 1e-6 of each other",
